@@ -17,6 +17,7 @@ import (
 	"crypto/sha256"
 	"encoding/hex"
 	"fmt"
+	"google.golang.org/protobuf/proto"
 	"strings"
 	"time"
 
@@ -198,6 +199,77 @@ const crashStaticCaseOk = "fun c => let '(((inherit, (ft, dt)), ms), want) := c 
 	"let di := fun z s => match find (fun e => String.eqb (fst (fst e)) z && String.eqb (snd (fst e)) s) dt with Some e => Some (snd e) | None => None end in " +
 	"match parse_static pf di inherit ms, want with Ok _, Some _ => true | Err _, None => true | _, _ => false end"
 
+// stretchStrings: identifiers are arbitrary strings - very long ones (beyond any fixed-size buffer), multi-byte ones whose
+// byte length and character count differ around the 6-byte NYCT prefix, and ones that are not valid UTF-8 at all
+func (g *gen) stretchStrings(m *gtfsrt.FeedMessage) {
+	odd := func(p **string) {
+		if *p == nil || !g.coin(0.35) {
+			return
+		}
+		switch g.r.Intn(8) {
+		case 0:
+			*p = ptr(strings.Repeat("x", 120+g.r.Intn(20)))
+		case 1:
+			*p = ptr(strings.Repeat("é", 60+g.r.Intn(10)))
+		case 2:
+			*p = ptr(strings.Repeat("0123456789", 100))
+		case 3:
+			*p = ptr(g.pick([]string{"0615é", "ééé", "日本語", "日本", "éééééé", "12345é", "1234é"}))
+		case 4:
+			*p = ptr(g.pick([]string{"12345\xff", "\xff\xfe\xfd\xfc\xfb\xfa", "abc\x80def", "\xc3"}))
+		case 5:
+			*p = ptr(**p + strings.Repeat("_", 200))
+		case 6:
+			*p = ptr(strings.Repeat("y", []int{127, 128, 129, 255, 256, 257, 65535, 65536}[g.r.Intn(8)]))
+		default:
+			*p = ptr("067800_" + strings.Repeat("L", 150) + "..N")
+		}
+	}
+	td := func(t *gtfsrt.TripDescriptor) {
+		if t != nil {
+			odd(&t.TripId)
+			odd(&t.RouteId)
+		}
+	}
+	vd := func(v *gtfsrt.VehicleDescriptor) {
+		if v != nil {
+			odd(&v.Id)
+			odd(&v.Label)
+			odd(&v.LicensePlate)
+		}
+	}
+	for _, e := range m.Entity {
+		odd(&e.Id)
+		if tu := e.TripUpdate; tu != nil {
+			td(tu.Trip)
+			vd(tu.Vehicle)
+			for _, u := range tu.StopTimeUpdate {
+				odd(&u.StopId)
+				if proto.HasExtension(u, gtfsrt.E_NyctStopTimeUpdate) {
+					n := proto.GetExtension(u, gtfsrt.E_NyctStopTimeUpdate).(*gtfsrt.NyctStopTimeUpdate)
+					odd(&n.ScheduledTrack)
+					odd(&n.ActualTrack)
+				}
+			}
+			if tu.Trip != nil && proto.HasExtension(tu.Trip, gtfsrt.E_NyctTripDescriptor) {
+				odd(&proto.GetExtension(tu.Trip, gtfsrt.E_NyctTripDescriptor).(*gtfsrt.NyctTripDescriptor).TrainId)
+			}
+		}
+		if vp := e.Vehicle; vp != nil {
+			td(vp.Trip)
+			vd(vp.Vehicle)
+			odd(&vp.StopId)
+		}
+		if a := e.Alert; a != nil {
+			for _, s := range a.InformedEntity {
+				odd(&s.RouteId)
+				odd(&s.StopId)
+				td(s.Trip)
+			}
+		}
+	}
+}
+
 func engineCrash(ctx *engineCtx) {
 	g := &gen{r: ctx.rng}
 	nRT, nJ, nRawZip, nCell := 8000, 500, 800, 900
@@ -226,6 +298,9 @@ func engineCrash(ctx *engineCtx) {
 			m = g.wild(kind != 0)
 		default:
 			m = g.conflictFree(kind == 1, true)
+		}
+		if g.coin(0.25) {
+			g.stretchStrings(m)
 		}
 		base := marshal(m)
 		b, op := g.mutateBytes(base, prev)
@@ -443,7 +518,7 @@ func engineCrash(ctx *engineCtx) {
 	for i, k := 0, 0; i < len(jCases); i, k = i+shard, k+1 {
 		j := min(i+shard, len(jCases))
 		ctx.caseFile(fmt.Sprintf("crash_journal_%d", k), "Model.Journal", "(list j_feed * list j_trip)",
-			"fun c => let '(feeds, want) := c in if list_eq_dec j_trip_eq_dec (build_journal feeds (-1099511627776) 1099511627776) want then true else false", jCases[i:j])
+			"fun c => let '(feeds, want) := c in if list_eq_dec j_trip_eq_dec (build_journal feeds (ns (-1099511627776)) (ns 1099511627776)) want then true else false", jCases[i:j])
 	}
 	shard = 6
 	for i, k := 0, 0; i < len(sCases); i, k = i+shard, k+1 {
